@@ -1081,7 +1081,39 @@ class Gen:
                 self.do({"op": "arrayOf", "r": row, "size": 4})
                 if self.m.regs[self.last()] is not DEAD:
                     nested.append(self.last())
+            # zips whose operands have collection elements: scalars with rows (either order), rows with rows, a zip zipped
+            # again, and what unzip gives back
+            zipped = []
+            # (rows collected with Array.new: no input is wrapped twice)
+            rows2 = [r for r in made[:3] if self.m.regs[r] is not DEAD]
+            if rows2:
+                flat2 = arr_of(Tj, 2)
+                for a, b in rng.sample([(flat2, rows2[0]), (rows2[0], flat2), (rows2[0], rows2[-1])], 2):
+                    self.do({"op": "zip", "a": a, "b": b})
+                    if self.m.regs[self.last()] is not DEAD:
+                        zipped.append(self.last())
+                        if rng.random() < 0.6:
+                            self.do({"op": "unzip", "a": self.last()})
+                            if self.m.regs[self.last()] is not DEAD:
+                                zipped.append(self.last())
+            if nested:
+                flat4 = arr_of(Ti, 4)
+                for a, b in rng.sample([(flat4, nested[0]), (nested[0], flat4), (nested[0], nested[-1])], 2):
+                    self.do({"op": "zip", "a": a, "b": b})
+                    if self.m.regs[self.last()] is not DEAD:
+                        zipped.append(self.last())
+                        z = self.last()
+                        if rng.random() < 0.6:
+                            self.do({"op": "unzip", "a": z})
+                            if self.m.regs[self.last()] is not DEAD:
+                                zipped.append(self.last())
+                        if rng.random() < 0.4:
+                            self.do({"op": "zip", "a": z, "b": flat4})
+                            if self.m.regs[self.last()] is not DEAD:
+                                zipped.append(self.last())
             made = [r for r in made if self.m.regs[r] is not DEAD]
+            if zipped:
+                self.compile_now(prefer=zipped[::-1][:4])
             self.compile_now(prefer=(nested + made)[:4])
             self.compile_now(prefer=(made + nested)[:4])
             self.compile_now(prefer=made[2:6])
